@@ -1,5 +1,7 @@
 import CpModel.Proto
 import CpModel.ParseSites
+import CpModel.ParseTok
+import CpModel.Gen.C07Tables
 /-!
   Driver for C07 (parse sites / catch map).  One case per line:
 
@@ -10,6 +12,17 @@ import CpModel.ParseSites
     fstar <text> <known|unknown> -> `st:<status>`                     (`filename*`)
     qvalue <text>                -> `ok|http:<code>`                  (`AcceptElement.qvalue`)
     maxage <text>                -> `st:<status>`                     (`caching.get` max-age check)
+    phdr <text>                  -> `<key> <name>=<value> ...`        (`parse_header`)
+    hsplit <text>                -> the pieces of `RE_HEADER_SPLIT.split`
+    helems <name> <value>        -> `ok <element> ...` | `http:400`   (`header_elements`, unsorted)
+    dinit <field=text> ...       -> `ok` | `err:<Class>`              (`HttpDigestAuthorization.__init__` checks)
+    dflow <s><d><h> <E:Class|P> <n><u><m><st> <field=text> ... -> status  (`digest_auth`)
+    respenc <0|1> <text>         -> `ok <hex>` | `err:ValueError`     (`HeaderMap.encode_header_item`)
+    respcls <text>               -> class of a response header value
+    trailers <hex,hex,..|_>      -> `ok` | `http:400` | `err:<Class>`  (`SizedReader.finish` over the trailer lines)
+    bind <bound> <args> <ndefaults> <va><vk> <npos> <kwargs> -> `<0|1> <http:code|reraise> <status>`
+                                   (Python's argument binding, `test_callable_spec`; lists: comma separated, `_` = empty;
+                                    a keyword is `text:0|1`, 1 = it came with the body)
     contract <site>              -> comma separated class names (`-` when empty)
     catch <site> <class>         -> status
 
@@ -27,7 +40,7 @@ def excName : Exc → String
   | .RuntimeError => "RuntimeError" | .RecursionError => "RecursionError" | .BinasciiError => "BinasciiError"
   | .MessageError => "MessageError" | .HeaderParseError => "HeaderParseError" | .CookieError => "CookieError"
   | .OverflowError => "OverflowError" | .JSONDecodeError => "JSONDecodeError" | .OSError => "OSError"
-  | .AssertionError => "AssertionError" | .HTTP400 => "HTTP400"
+  | .AssertionError => "AssertionError" | .MaxSizeExceeded => "MaxSizeExceeded" | .HTTP400 => "HTTP400"
 
 def siteName : Site → String
   | .decodeHeader => "decodeHeader" | .decodeTextCharset => "decodeTextCharset" | .cookieLoad => "cookieLoad"
@@ -35,7 +48,8 @@ def siteName : Site → String
   | .qvalueAccept => "qvalueAccept" | .qvalueGzip => "qvalueGzip" | .contentLengthInt => "contentLengthInt"
   | .urlencDecode => "urlencDecode" | .partDecode => "partDecode" | .partHeaders => "partHeaders"
   | .partBody => "partBody" | .filenameStar => "filenameStar" | .jsonDecode => "jsonDecode"
-  | .basicB64 => "basicB64" | .digestKeqv => "digestKeqv"
+  | .basicB64 => "basicB64" | .digestKeqv => "digestKeqv" | .encodeCharset => "encodeCharset"
+  | .proxyNetloc => "proxyNetloc" | .redirectNetloc => "redirectNetloc" | .rfileRead => "rfileRead"
 
 def parseExc (s : String) : Option Exc := allExcs.find? (excName · == s)
 def parseSite (s : String) : Option Site := allSites.find? (siteName · == s)
@@ -56,8 +70,112 @@ def showRaw {α : Type} : Except Raised α → String
 
 def st {α : Type} (s : Site) (r : Except Raised α) : String := s!"st:{statusOf s r}"
 
+def showParams (ps : Params) : String :=
+  " ".intercalate (ps.map fun p => s!"{Proto.text p.1}={Proto.text p.2}")
+
+def showPVal : PVal → String
+  | .str s => s!"S:{Proto.text s}"
+  | .elem v ps => "E:" ++ ",".intercalate (Proto.text v :: ps.map fun p => s!"{Proto.text p.1}:{Proto.text p.2}")
+
+def showElem (e : HElem) : String :=
+  ";".intercalate (Proto.text e.value :: e.params.map fun p => s!"{Proto.text p.1}={showPVal p.2}")
+
+def parseField (d : DigestParams) (f : String) : Option DigestParams :=
+  match f.splitOn "=" with
+  | [k, v] =>
+    match Proto.untext? v with
+    | none => none
+    | some t =>
+      if k == "realm" then some { d with realm := some t }
+      else if k == "username" then some { d with username := some t }
+      else if k == "nonce" then some { d with nonce := some t }
+      else if k == "uri" then some { d with uri := some t }
+      else if k == "response" then some { d with response := some t }
+      else if k == "algorithm" then some { d with algorithm := some t }
+      else if k == "cnonce" then some { d with cnonce := some t }
+      else if k == "qop" then some { d with qop := some t }
+      else if k == "nc" then some { d with nc := some t }
+      else none
+  | _ => none
+
+def parseFields (fs : List String) : Option DigestParams :=
+  fs.foldlM parseField ⟨none, none, none, none, none, none, none, none, none⟩
+
+def textList? (s : String) : Option (List Text) :=
+  if s == "_" then some [] else (s.splitOn ",").mapM Proto.untext?
+
+def kwList? (s : String) : Option (List (Text × Bool)) :=
+  if s == "_" then some [] else
+  (s.splitOn ",").mapM fun item =>
+    match item.splitOn ":" with
+    | [t, b] =>
+      match Proto.untext? t with
+      | some k => if b == "1" then some (k, true) else if b == "0" then some (k, false) else none
+      | none => none
+    | _ => none
+
+def bit? (c : Char) : Option Bool := if c = '1' then some true else if c = '0' then some false else none
+
 def step (line : String) : String :=
   match Proto.fields line with
+  | ["phdr", t] =>
+    match Proto.untext? t with
+    | some l => let r := parseHeader l; (Proto.text r.1 ++ " " ++ showParams r.2).trimAscii.toString
+    | none => "bad-op"
+  | ["hsplit", t] =>
+    match Proto.untext? t with
+    | some l => " ".intercalate ((headerSplit l).map Proto.text)
+    | none => "bad-op"
+  | ["helems", n, v] =>
+    match Proto.untext? n, Proto.untext? v with
+    | some name, some value =>
+      match headerElements name value with
+      | .ok els => ("ok " ++ " ".intercalate (els.map showElem)).trimAscii.toString
+      | .error (.http c) => s!"http:{c}"
+      | .error (.py e) => "err:" ++ excName e
+    | _, _ => "bad-op"
+  | "dinit" :: fs =>
+    match parseFields fs with
+    | some p => showRaw (digestInit CpModel.Gen.C07.digestAlgsUpper CpModel.Gen.C07.digestQops p)
+    | none => "bad-op"
+  | "dflow" :: b3 :: tok :: e4 :: fs =>
+    match b3.toList.mapM bit?, e4.toList.mapM bit?, parseFields fs with
+    | some [sc, dc, hp], some [nv, uk, dm, stl], some p =>
+      let t : Option (Except Exc DigestParams) :=
+        if tok == "P" then some (.ok p)
+        else if tok.startsWith "E:" then (parseExc (tok.drop 2).toString).map .error
+        else none
+      match t with
+      | some tk => toString (digestAuth CpModel.Gen.C07.digestAlgsUpper CpModel.Gen.C07.digestQops sc dc hp tk ⟨nv, uk, dm, stl⟩)
+      | none => "bad-op"
+    | _, _, _ => "bad-op"
+  | ["respenc", p, t] =>
+    match bit? (p.toList.headD 'x'), Proto.untext? t with
+    | some p11, some l =>
+      match respEncode p11 l with
+      | .ok b => "ok " ++ Proto.hex b
+      | .error _ => "err:ValueError"
+    | _, _ => "bad-op"
+  | ["bind", b, a, nd, flags, np, kws] =>
+    match Proto.untext? b, textList? a, nd.toNat?, flags.toList.mapM bit?, np.toNat?, kwList? kws with
+    | some bound, some args, some ndef, some [va, vk], some npos, some kwargs =>
+      let sg : Sig := ⟨bound, args, ndef, va, vk⟩
+      let c : Call := ⟨npos, kwargs⟩
+      let fx := CpModel.Gen.C07.boundArgClassified
+      let spec := match testCallableSpec fx sg c with
+        | .http code => s!"http:{code}"
+        | .reraise => "reraise"
+      s!"{if bindFails sg c then 1 else 0} {spec} {dispatchStatus fx sg c}"
+    | _, _, _, _, _, _ => "bad-op"
+  | ["trailers", t] =>
+    let ls : Option (List (List UInt8)) := if t == "_" then some [] else (t.splitOn ",").mapM Proto.unhex?
+    match ls with
+    | some lines => showRaw (trailerFinish CpModel.Gen.C07.trailerErrorsAre400 lines)
+    | none => "bad-op"
+  | ["respcls", t] =>
+    match Proto.untext? t with
+    | some l => reprStr (respClsOf l)
+    | none => "bad-op"
   | ["ranges", t, n] =>
     match Proto.untext? t, n.toNat? with
     | some hv, some len => let r := getRangesRaw hv len; s!"{showRaw r} {st .getRanges r}"
